@@ -33,7 +33,7 @@ RULE = ('EUI-64: literal vectors, then boundary MACs (0, all ones, U/L bit, ever
         'fragment x allow_fragments x default scheme, then seeded compositions with generated query pairs. '
         'non-trivial = every EUI/host:port case; a URL with a query, a fragment, userinfo, a port or an '
         'IPv6 literal. distinct by the rendered input text plus call arguments')
-REQUIRED_CLAUSES = ['under-lazy-translation', 'documented-keyword-call', 'eui64-forward', 'eui64-inverse', 'eui64-inverse-constructed', 'eui64-literal-vector',
+REQUIRED_CLAUSES = ['eui64-result-owned-by-caller', 'under-lazy-translation', 'documented-keyword-call', 'eui64-forward', 'eui64-inverse', 'eui64-inverse-constructed', 'eui64-literal-vector',
                     'eui64-must-raise-ipv4-prefix', 'eui64-must-raise-malformed-prefix',
                     'eui64-must-raise-malformed-mac', 'eui64-dont-care-no-unexpected-exception',
                     'hostport-roundtrip', 'hostport-default-port', 'hostport-documented-forms',
@@ -246,6 +246,24 @@ def eval_eui(ctx, case):
         ctx.fail(clause, case, {'prefix': prefix, 'mac': mactxt, 'got': str(got),
                                 'want': ipaddress.IPv6Address(want).compressed})
     _check_inverse(ctx, case, 'eui64-inverse', got, mac)
+    # the caller owns the result: changing it in place (netaddr addresses allow += and .value = ) does not change what
+    # the next call with the same arguments returns
+    if got_int == want and want % 3 == 0:
+        ctx.clause('eui64-result-owned-by-caller')
+        try:
+            got += 1
+            got.value = 0
+        except BaseException:  # noqa  (an immutable result is fine as well)
+            pass
+        again, exc2 = _call_eui(prefix, mactxt)
+        try:
+            again_int = int(again) if exc2 is None else None
+        except BaseException:  # noqa
+            again_int = None
+        if again_int != want:
+            ctx.fail('eui64-result-owned-by-caller', case,
+                     {'prefix': prefix, 'mac': mactxt, 'second_call': str(again), 'exc': exc2,
+                      'want': ipaddress.IPv6Address(want).compressed})
 
 
 def eval_eui_inv(ctx, case):
